@@ -328,6 +328,33 @@ def run(tier, seed):
                 case["impl"] = io_
                 run.fail(case, "out-of-range index %d decoded to a value when a reader schema is given" % bad,
                          kind="oracle")
+    # ---------------- (2c) optional fields on both sides: two-branch unions with null read through a reader schema that
+    # keeps them optional (field added, promotion, branches reversed, first field dropped)
+    for wu, good in ((["null", "int"], 5), (["int", "null"], 5), (["null", "string"], "x"), (["null", {"type": "array", "items": "long"}], [1])):
+        w = {"type": "record", "name": "Opt", "fields": [{"name": "pre", "type": "string"}, {"name": "u", "type": wu}, {"name": "post", "type": "long"}]}
+        promoted = ["long" if b == "int" else ("bytes" if b == "string" else b) for b in wu]
+        readers = {
+            "field-added": dict(w, fields=w["fields"] + [{"name": "extra", "type": "int", "default": 0}]),
+            "promoted": dict(w, fields=[w["fields"][0], {"name": "u", "type": promoted}, w["fields"][2]]),
+            "reversed": dict(w, fields=[w["fields"][0], {"name": "u", "type": list(reversed(wu))}, w["fields"][2]]),
+            "first-dropped": dict(w, fields=w["fields"][1:]),
+            "top-level-union": None}
+        for rname, rs in readers.items():
+            for bad in (2, 3, 64, 1000, 2 ** 40, -1, -2):
+                if rs is None:
+                    ws_, rs_ = wu, list(reversed(wu))
+                    b = enc_long(bad) + b"\x02\x02\x02"
+                else:
+                    ws_, rs_ = w, rs
+                    b = enc_long(1) + b"p" + enc_long(bad) + b"\x02\x02\x02\x02"
+                io_ = read_impl(fastavro.parse_schema(json.loads(json.dumps(ws_))), b, json.loads(json.dumps(rs_)))
+                case = {"schema": ws_, "reader_schema": rs_, "bytes": b.hex(), "bad_index": bad, "branches_or_symbols": 2,
+                        "tags": ["bad-index", "reader-schema", "optional-both-sides", "reader:" + rname]}
+                run.count(case, True, ["bad-index:optional-both-sides"])
+                run.cov["traces_validated_against_impl"] += 1
+                if "ok" in io_:
+                    case["impl"] = io_
+                    run.fail(case, "out-of-range union index %d decoded to a value when a reader schema is given" % bad, kind="oracle")
     # ---------------- (3) proper prefixes
     pre = []
     for (s, ps, nf, b, nb, std) in base[:scale(tier, 300)]:
